@@ -1,10 +1,163 @@
 import KawinV.Proto
-/-! driver verbs for C18 (stub: no verbs yet) -/
+import KawinV.Gen.C18Strength
+import KawinV.Model.Strength
+import KawinV.Model.GrainGrowth
+/-! driver verbs for C18: generated strength formulas, strength array-logic model, grain-growth model
+(Float instance) -/
 namespace KawinV.Drv.C18
-open KawinV.Proto
+open KawinV.Proto KawinV.Gen.C18 KawinV.Strength KawinV.Grain
+
+abbrev F3 := Float → Float → Float → Float
+abbrev F22 := Float → Float → Float → Float → Float → Float → Float → Float → Float → Float → Float →
+  Float → Float → Float → Float → Float → Float → Float → Float → Float → Float → Float → Float
+abbrev L22 := Float → Float → Float → Float → Float → Float → Float → Float → Float → Float → Float →
+  Float → Float → Float → Float → Float → Float → Float → Float → Float → Float → Float → List Float
+
+def g (p : Array Float) (i : Nat) : Float := p.getD i 0.0
+
+/-- parameter vector (G b nu ri theta psi J eps Gp w1 w2 yAPB s beta V ySFM ySFP bp gamma _ _ _) + (r, Ls, r0) -/
+def ap (f : F22) (p : Array Float) : F3 := fun r Ls r0 =>
+  f (g p 0) (g p 1) (g p 2) (g p 3) (g p 4) (g p 5) (g p 6) (g p 7) (g p 8) (g p 9) (g p 10) (g p 11)
+    (g p 12) (g p 13) (g p 14) (g p 15) (g p 16) (g p 17) (g p 18) r Ls r0
+
+def apL (f : L22) (p : Array Float) : List Float :=
+  f (g p 0) (g p 1) (g p 2) (g p 3) (g p 4) (g p 5) (g p 6) (g p 7) (g p 8) (g p 9) (g p 10) (g p 11)
+    (g p 12) (g p 13) (g p 14) (g p 15) (g p 16) (g p 17) (g p 18) (g p 19) (g p 20) (g p 21)
+
+def vec22 : P (Array Float) := do let l ← rep flt 22; pure l.toArray
+def bools5 : P (List Bool) := rep bool 5
+
+/-- weak / strong formula of contribution i (Coherency, Modulus, APB, SFE, Interfacial) for the line-tension model -/
+def weakF (tm i : Nat) : F22 :=
+  match tm, i with
+  | 0, 0 => sf_coherencyWeak | 0, 1 => sf_modulusWeak | 0, 2 => sf_APBweak | 0, 3 => sf_SFEweak | 0, _ => sf_interfacialWeak
+  | _, 0 => sfs_coherencyWeak | _, 1 => sfs_modulusWeak | _, 2 => sfs_APBweak | _, 3 => sfs_SFEweak | _, _ => sfs_interfacialWeak
+
+def strongF (tm i : Nat) : F22 :=
+  match tm, i with
+  | 0, 0 => sf_coherencyStrong | 0, 1 => sf_modulusStrong | 0, 2 => sf_APBstrong | 0, 3 => sf_SFEstrong | 0, _ => sf_interfacialStrong
+  | _, 0 => sfs_coherencyStrong | _, 1 => sfs_modulusStrong | _, 2 => sfs_APBstrong | _, 3 => sfs_SFEstrong | _, _ => sfs_interfacialStrong
+
+def contribs (tm : Nat) (pall pph : Array Float) (allOn phOn : List Bool) : List (Contrib Float) :=
+  (List.range 5).map (fun i =>
+    { allOn := allOn.getD i false, phaseOn := phOn.getD i false,
+      weakAll := ap (weakF tm i) pall, strongAll := ap (strongF tm i) pall,
+      weakPhase := ap (weakF tm i) pph, strongPhase := ap (strongF tm i) pph })
+
+def oroF (pall : Array Float) : Float → Float → Float := fun r Ls => ap sf_orowan pall r Ls 0.0
+
+def fin (x : Float) : Bool := x.isFinite
+
+/-- c18.gen group vec22 → all generated outputs of the group -/
+def gen : P String := do
+  let grp ← nat; let p ← vec22
+  pure (flist (if grp = 0 then apL sf_all p else apL sfs_all p))
+
+/-- c18.strength tmodel n M pall allOn pph phOn rs Ls
+    → k, then per entry: weak(k) strong(k) orowan strength weakDominant tausumweak tausumstrong -/
+def strength : P String := do
+  let tm ← nat; let n ← flt; let M ← flt
+  let pall ← vec22; let allOn ← bools5; let pph ← vec22; let phOn ← bools5
+  let rs ← flts; let ls ← flts
+  let cs := contribs tm pall pph allOn phOn
+  let psi := g pall 5
+  let k := (cs.filter (fun c => c.active)).length
+  let out := (rs.zip ls).map (fun (r, L) =>
+    let c := getContributions fin cs (oroF pall) (r0Weak psi) r L
+    let cb := combine fin Float.pow n M c.weak c.strong c.oro
+    s!"{flist c.weak} {flist c.strong} {fout c.oro} {fout cb.strength} {bstr cb.weakDominant} {fout cb.tw} {fout cb.ts}")
+  pure (" ".intercalate (toString k :: out))
+
+/-- c18.prec tmodel n nSame nMixed M pall allOn P [pph phOn rs ls]ᴾ → precStrength per row -/
+def prec : P String := do
+  let tm ← nat; let n ← flt; let nS ← flt; let nM ← flt; let M ← flt
+  let pall ← vec22; let allOn ← bools5
+  let np ← nat
+  let phases ← rep (do let pph ← vec22; let on ← bools5; let rs ← flts; let ls ← flts; pure (pph, on, rs, ls)) np
+  let psi := g pall 5
+  let rows := match phases with | [] => 0 | (_, _, rs, _) :: _ => rs.length
+  let out := (List.range rows).map (fun i =>
+    let cbs := phases.map (fun (pph, on, rs, ls) =>
+      phaseStrength fin Float.pow n M (contribs tm pall pph allOn on) (oroF pall) (r0Weak psi) (rs.getD i 0.0) (ls.getD i 0.0))
+    precRow fin Float.pow nS nM cbs)
+  pure (flist out)
+
+/-- c18.total n sigma0 ss prec → totalStrength per row -/
+def total : P String := do
+  let n ← flt; let s0 ← flt; let ss ← flts; let pr ← flts
+  pure (flist ((ss.zip pr).map (fun (s, p) => totalStrength Float.pow n s0 s p)))
+
+def histOut (h : Option (Hist Float)) : String :=
+  match h with
+  | none => s!"0 {flist []} {flist []} {flist []}"
+  | some h => s!"{h.rss.length} {flist h.rss.flatten} {flist h.ls.flatten} {flist h.ss}"
+
+/-- c18.hist P ss0 nsolve [nsteps [ss rssRow lsRow]*]* → rows, rss (row-major), ls, ss -/
+def hist : P String := do
+  let np ← nat; let ss0 ← flt
+  let solves ← lst (lst (do let ss ← flt; let r ← flts; let l ← flts; pure ({ rssRow := r, lsRow := l, ss := ss } : Step Float)))
+  pure (histOut (runSolves np ss0 none solves))
+
+/-- c18.histpsd P ss0 nsolve [nsteps [ss [psd size]ᴾ]*]* — rows computed by rssTerm / lsTerm -/
+def histpsd : P String := do
+  let np ← nat; let ss0 ← flt
+  let solves ← lst (lst (do
+    let ss ← flt
+    let pbs ← rep (do let psd ← flts; let size ← flts; pure (psd, size)) np
+    pure ({ rssRow := pbs.map (fun (p, s) => rssTerm p s), lsRow := pbs.map (fun (p, s) => lsTerm p s), ss := ss } : Step Float)))
+  pure (histOut (runSolves np ss0 none solves))
+
+/-- c18.rssls psd size → rss Ls -/
+def rssls : P String := do
+  let psd ← flts; let size ← flts
+  pure s!"{fout (rssTerm psd size)} {fout (lsTerm psd size)}"
+
+/-- c18.clock clock0 hostTimes → grain-growth clock after every host step -/
+def clock : P String := do
+  let c ← flt; let ts ← flts
+  pure (flist (clockRun c ts))
+
+def fn (a : Array Float) : Nat → Float := fun i => a.getD i 0.0
+
+/-- c18.cg alpha M gbe z g → constrainedGrowth -/
+def cg : P String := do
+  let al ← flt; let M ← flt; let gbe ← flt; let z ← flt; let gs ← flts
+  pure (flist (gs.map (constrained al M gbe z)))
+
+/-- c18.norm psd size → normalised psd, third moment after, Rm before, Rm after -/
+def norm : P String := do
+  let psd ← flts; let size ← flts
+  let n := psd.length
+  let p := fn psd.toArray; let s := fn size.toArray
+  let q := normalize n p s
+  pure s!"{flist ((List.range n).map q)} {fout (moment 3 n q s)} {fout (rm n p s)} {fout (rm n q s)}"
+
+/-- c18.gg alpha M gbe z psd size bounds → grainGrowth(n+1) rate(n+1) dXdt(n) netFlux(n+1) -/
+def gg : P String := do
+  let al ← flt; let M ← flt; let gbe ← flt; let z ← flt
+  let psd ← flts; let size ← flts; let b ← flts
+  let n := psd.length
+  let p := fn psd.toArray; let s := fn size.toArray; let bd := fn b.toArray
+  let gr := (List.range (n+1)).map (grainGrowth al M gbe n p s bd)
+  let rt := ((List.range (n+1)).map (rate al M gbe z n p s bd)).toArray
+  let dR : Nat → Float := fun i => bd (i+1) - bd i
+  let nf := (List.range (n+1)).map (PBM.netFlux n (fn rt) p dR)
+  let d := (List.range n).map (Grain.dXdt n (fn rt) p bd)
+  pure s!"{flist gr} {flist rt.toList} {flist d} {flist nf}"
 
 def handle (verb : String) : Option (P String) :=
   match verb with
+  | "c18.gen" => some gen
+  | "c18.strength" => some strength
+  | "c18.prec" => some prec
+  | "c18.total" => some total
+  | "c18.hist" => some hist
+  | "c18.histpsd" => some histpsd
+  | "c18.rssls" => some rssls
+  | "c18.clock" => some clock
+  | "c18.cg" => some cg
+  | "c18.norm" => some norm
+  | "c18.gg" => some gg
   | _ => none
 
 end KawinV.Drv.C18
